@@ -81,6 +81,7 @@ type Interp struct {
 	reached   map[string]bool
 	observes  []Observation
 	clockLast *term.Term
+	uuidSeq   int // per-path counter: uuid.New() returns distinct, deterministic values
 	usedIntrinsics map[string]bool
 	usedStubs      map[string]bool
 	encoded        map[string]bool
